@@ -1,5 +1,5 @@
 import sys, os, time, collections
-sys.path.insert(0, '/repo'); sys.path.insert(0, '/tmp/scratch')
+sys.path.insert(0, '/repo'); sys.path.insert(0, __import__('os').path.dirname(__file__))
 from tapescript import run_script, ScriptExecutionError
 import ed
 seed = bytes(range(32)); pk = ed.pub(seed)
